@@ -158,6 +158,24 @@ def corpus():
     for cut in (b + 99, b + 100, b + 105, b + 110, b + 115, b + 120, b + 200):
         c.append((sfl, cut, False))
         c.append((sfl, cut, True))
+    # K_idle_split_expansion (Proofs/C10Classes.v wit4): the spouse sells everything before the date, then a
+    # split for all affiliates: the full history expands it over the spouse too (0 shares), the re-run does not
+    idle = [mkrow(b, "Buy", None, sh=D(10), aps=D(1000, 2), com=None),
+            mkrow(b + 1, "Buy", "Spouse", sh=D(5), aps=D(1000, 2), com=None),
+            mkrow(b + 2, "Sell", "Spouse", sh=D(5), aps=D(1200, 2), com=None),
+            mkrow(b + 140, "Split", None, split=("2", "1"))]
+    c.append((idle, b + 40, False))
+    c.append((idle, b + 40, True))
+    # Proofs/C10Classes.v rt_P/rt_K/rt_T: re-emitted superficial sale + adjustment row, a later superficial sale
+    # whose window reaches back over the re-emitted rows, a later plain loss
+    rt = [mkrow(b, "Buy", None, sh=D(10), aps=D(1000, 2), com=None),
+          mkrow(b + 100, "Buy", None, sh=D(5), aps=D(900, 2), com=None),
+          mkrow(b + 110, "Sell", None, sh=D(3), aps=D(500, 2), com=None),
+          mkrow(b + 125, "Sell", None, sh=D(2), aps=D(400, 2), com=None),
+          mkrow(b + 135, "Buy", None, sh=D(1), aps=D(500, 2), com=None),
+          mkrow(b + 300, "Sell", None, sh=D(1), aps=D(300, 2), com=None)]
+    for cut in (b + 110, b + 115, b + 124, b + 125, b + 135):
+        c.append((rt, cut, False))
     # annual: a loss year cut in January with an acquisition soon after
     y = datetime.date(2021, 1, 1).toordinal()
     ann = [mkrow(y - 300, "Buy", None, sh=D(50), aps=D(2000, 2), com=None),
@@ -225,12 +243,15 @@ def parse_model(ints):
         return {"status": "panic", "panic": (rd.z(), rd.z())}
     flags = {"K_summary_buy_in_window": bool(rd.z()), "K_annual_sell_in_window": bool(rd.z()),
              "K_zero_balance_acb": bool(rd.z())}
+    k4 = bool(rd.z())
     rt_ok = bool(rd.z())
+    rt_obs_ok = bool(rd.z())
     n = rd.z()
     sums = [parse_tx_ints(rd) for _ in range(n)]
     k = rd.z()
     rest = ints[rd.i:]
-    return {"status": "ok", "summary": sums, "classes": sorted(c for c, v in flags.items() if v), "roundtrip_ok": rt_ok, "rerun": core.parse_model([1] + rest[:k]),
+    return {"status": "ok", "summary": sums, "classes": sorted(c for c, v in flags.items() if v), "roundtrip_ok": rt_ok,
+            "K_idle_split_expansion": k4, "roundtrip_obs_ok": rt_obs_ok, "rerun": core.parse_model([1] + rest[:k]),
             "full": core.parse_model([1] + rest[k:])}
 
 
@@ -443,6 +464,21 @@ def check_cases(res, ctx, cases, label):
         if m["status"] == "ok" and not d and sorted(cls) != m["classes"]:
             # the class predicates of Properties/C10.v (evaluated by the model) and of this check must agree
             ctx["diffs"].append(("class predicates: Rocq %s, check %s" % (m["classes"], sorted(cls)), h))
+        # K_idle_split_expansion (Model/SummaryObs.v): a row after the date is the expansion of a split for all
+        # affiliates over an affiliate holding nothing; not a class of failures of the property (later_rows leaves
+        # such rows out) but the class in which the model's strict row-by-row comparison fails: predicate Rocq == check,
+        # and the model's strict comparison may differ from its observational one only inside it
+        idle = any(x["act"] == "Split" and x["sd"] > cut and x["pre"][0] == 0 and x["post"][0] == 0
+                   for so in full["secs"].values() for x in so["deltas"])
+        if idle:
+            st["in-class-K_idle_split_expansion"] += 1
+        if m["status"] == "ok" and not d and len(full["secs"]) == 1:
+            if idle != m["K_idle_split_expansion"]:
+                ctx["diffs"].append(("class predicate K_idle_split_expansion: Rocq %s, check %s" % (m["K_idle_split_expansion"], idle), h))
+            elif not idle and m["roundtrip_ok"] != m["roundtrip_obs_ok"]:
+                ctx["diffs"].append(("model: strict and observational round trip differ outside K_idle_split_expansion", h))
+            if m["roundtrip_obs_ok"] and not m["roundtrip_ok"]:
+                st["model-strict-comparison-fails-only-on-idle-expansion-rows"] += 1
         if bad:
             st["roundtrip-differs"] += 1
             if cls:
